@@ -466,3 +466,127 @@ def _series_getitem(interp, base, idx, node):
 
 
 E.HOOKS["index"].insert(0, _series_getitem)
+
+
+@method("DataFrame", "sample")
+def _df_sample(interp, sv, args, kwargs, node):
+    """DataFrame.sample(n=m): m rows at pairwise distinct positions (requires m <= len)"""
+    cols = getattr(sv, "cols", None)
+    n = kwargs.get("n", args[0] if args else None)
+    if cols is None or n is None:
+        return interp.born(E.opaque(interp, "DataFrame.sample", [sv] + list(args), kwargs, "DataFrame"))
+    ctx = interp.ctx
+    m = to_int(n)
+    nrows = interp.seq_len(cols[0][1])
+    if not interp.spec_mode and not ctx.decide(z3.And(m >= 0, m <= nrows), getattr(node, "lineno", "")):
+        raise_py(interp, "ValueError", "Cannot take a larger sample than population when 'replace=False'", node)
+    idx = ctx.fresh_fun("sample_idx", z3.IntSort(), z3.IntSort())
+    i, j = z3.Int("i!sm"), z3.Int("j!sm")
+    ctx.assume(z3.ForAll([i], z3.Implies(z3.And(0 <= i, i < m), z3.And(idx(i) >= 0, idx(i) < nrows))),
+               "extern:DataFrame.sample(n) returns n rows of the frame at pairwise distinct positions")
+    ctx.assume(z3.ForAll([i, j], z3.Implies(z3.And(0 <= i, i < j, j < m), idx(i) != idx(j))))
+    fr = VObj("DataFrame")
+    newcols = []
+    for name, c in cols:
+        col = VList(SymSeq(m, (lambda c: lambda k: c.content.at(idx(k)))(c), T.Str), "Series")
+        col.labels = None
+        col.sid = f"sample({c.sid})"
+        newcols.append((name, col))
+    fr.cols, fr.sid, fr.nrows = newcols, f"sample({sv.sid})", m
+    fr.sub_of, fr.sub_idx = sv, idx
+    return interp.born(fr)
+
+
+@S.spec("is_subsample")
+def _is_subsample(interp, args, kwargs, node):
+    """x consists of m elements (rows) of src taken at pairwise distinct positions"""
+    x, src, m = args
+    return VBool(z3.And(z3.BoolVal(getattr(x, "sub_of", None) is src and not getattr(x, "with_replacement", False)),
+                        (interp.seq_len(x) if isinstance(x, VList) else interp.seq_len(x.cols[0][1])) == to_int(m)))
+
+
+@S.spec("random_subsample")
+def _random_subsample(interp, args, kwargs, node):
+    """m elements (rows) of src at pairwise distinct, otherwise arbitrary positions"""
+    src, m = args
+    if isinstance(src, VObj) and getattr(src, "cols", None) is not None:
+        return _df_sample(interp, src, [], {"n": m}, node)
+    from .ext_numpy import np_random_choice
+    return np_random_choice(interp, [src, m], {"replace": VBool(False)}, node)
+
+
+# ---- shipped data files: read at verification time from the repository (finite ground data, checked exhaustively) ----
+import csv as _csv
+import os as _os
+
+
+@extern("os.path.dirname")
+def _dirname(interp, args, kwargs, node):
+    s = concrete_str(args[0])
+    if s is None:
+        raise Unsupported("os.path.dirname of a symbolic path")
+    return VStr(_os.path.dirname(s))
+
+
+@extern("os.path.join")
+def _join(interp, args, kwargs, node):
+    parts = [concrete_str(a) for a in args]
+    if any(p is None for p in parts):
+        raise Unsupported("os.path.join of symbolic parts")
+    return VStr(_os.path.join(*parts))
+
+
+@extern("pandas.read_csv")
+def _read_csv(interp, args, kwargs, node):
+    path = concrete_str(args[0])
+    ic = kwargs.get("index_col")
+    if path is None or not _os.path.isfile(path) or concrete_int(ic) != 0:
+        return interp.born(E.opaque(interp, "pandas.read_csv", args, kwargs, "DataFrame"))
+    with open(path, newline="") as f:
+        rows = list(_csv.reader(f))
+    header, body = rows[0], rows[1:]
+    interp.ctx.assumed.add(f"extern:pandas.read_csv(<shipped file>, index_col=0) parses {_os.path.basename(path)} as written "
+                           "(first column = index; integer-looking labels become ints)")
+
+    def lab(x):
+        try:
+            return VInt(int(x))
+        except ValueError:
+            return VStr(x)
+    fr = VObj("DataFrame", z3.Const(f"csv:{_os.path.basename(path)}", OBJ))
+    fr.index_list = VList(ConcreteSeq([lab(r[0]) for r in body]))
+    fr.columns_list = [h for h in header[1:]]
+    fr.nrows_concrete = len(body)
+    fr.body = body
+    return fr
+
+
+def _csv_getattr(interp, base, attr, node):
+    if isinstance(base, VObj) and hasattr(base, "index_list"):
+        if attr == "index":
+            return base.index_list
+    return None
+
+
+E.HOOKS["getattr"].append(_csv_getattr)
+
+
+def _csv_len(interp, v, node):
+    if isinstance(v, VObj) and hasattr(v, "nrows_concrete"):
+        return VInt(v.nrows_concrete)
+    return None
+
+
+E.LEN_HOOKS.append(_csv_len)
+
+
+@S.spec("consecutive_from_zero")
+def _consecutive_from_zero(interp, args, kwargs, node):
+    items = interp.iter_concrete(args[0])
+    return VBool(z3.And(*[interp.veq(x, VInt(i)) for i, x in enumerate(items)]) if items else z3.BoolVal(True))
+
+
+@S.spec("is_shipped_table")
+def _is_shipped_table(interp, args, kwargs, node):
+    v, name = args
+    return VBool(isinstance(v, VObj) and v.term is not None and str(v.term) == f"csv:{concrete_str(name)}")
